@@ -57,6 +57,15 @@ class AttackWorld(c09.World):
         from skepticoin.networking import messages as M
         self.phase = phase
         H = self.fc.head()
+        # history before the attack: an honest peer has relayed a valid block on a side branch (a sibling of the head: fully
+        # validated, stored, not head) - what the node falls back to after a rejected block must not be older than that
+        sib = self.uni.get(H.parent.path + ('e',)) if H.parent is not None else None
+        if sib is not None and sib.bid != H.bid:
+            self.deliver_block(sib.block, sib.ts + 3000)
+            if sib.bid in self.node.cm.coinstate.block_by_hash:
+                self.stored[sib.path] = sib
+                self.fc.add(sib)
+            self.net.escaped.clear()
         # a second pending transaction for the transcript (the pool holds 'a'; this one spends another output)
         o0 = world.owned(H.utxo, K[0])
         self.pending_other = world.mk_tx([(world.oref(o0[1]), K[0])], [(H.utxo[o0[1]][0] - 3, K[2])])
